@@ -308,9 +308,14 @@ def cli_diff_case(ctx, rng, workdir, idx):
             paths[nm] = os.path.join(d_, nm + ".vtu")
         with warnings.catch_warnings():
             warnings.simplefilter("ignore")
-            rc, log, exc = run_cli(["file", paths["res"], paths["ref"], "--diff", "--verbosity", "0"])
+            # mesh options that change nothing for these files (no unconnected points, both sides stored with three coordinates)
+            extra = rng.choice([[], [], ["--disable-mesh-orphan-point-removal"], ["--disable-mesh-space-dimension-matching"],
+                                ["--disable-mesh-orphan-point-removal", "--disable-mesh-space-dimension-matching"]])
+            rc, log, exc = run_cli(["file", paths["res"], paths["ref"], "--diff", "--verbosity", "0"] + extra)
         produced = [f for f in os.listdir(d_) if f.startswith("diff_")]
-        canon = {"cli_diff": {"mesh": G.copy_mesh(M) and None, "npoints": n, "perturbed": [str(k) for k in delta], "delta": [str(v) for v in delta.values()]}}
+        ctx.count("cli --diff options:" + (" ".join(extra) or "none"))
+        canon = {"cli_diff": {"mesh": G.copy_mesh(M) and None, "npoints": n, "perturbed": [str(k) for k in delta], "delta": [str(v) for v in delta.values()],
+                              "options": extra}}
         ctx.case({"cli_diff": idx, "n": n, "delta": [str(v) for v in delta.values()]}, True,
                  sample={"cli_diff": {"points": n, "delta": [str(v) for v in delta.values()], "files": produced, "exit": rc}})
         ctx.count("cli --diff")
